@@ -163,9 +163,37 @@ def r2(ctx):
     ctx.ob('C10.R2', fn, fn.body, okb, 'bit field overflow rejected', 'values wider than the bit count are rejected: %s' % okb)
 
 
+def r5(ctx):
+    ctx.rule('C10.R5', 'SingleDataField::hasFullByteOffset leaves the bit bookkeeping up to date for the next field: whenever it is '
+             'called for the position behind the field (after = true), every return is reached only after the "previous first '
+             'bit" was written (-1 after a field that ends on a byte boundary, the first bit otherwise); a return that skips '
+             'the write lets the next bit field be compared with a stale bit position', minimum=2)
+    fb = ctx.fb
+    fn = fb.fn('ebusd::SingleDataField::hasFullByteOffset')
+    ctx.touch(fn)
+    after, prev = fn.P(0), fn.P(1)
+    writes = set(nid for nid, d, rhs, op, lhs in fn.assignments() if d and d.split(':')[-1] == prev and op != 'init')
+    cut = fn.edges_with_atom(after, False)
+    n = 0
+    for r in fn.all('ReturnStmt'):
+        n += 1
+        skipped = not writes or fn.reaches_point(fn.entry, fn.pos(r), writes, cut_edges=cut)
+        ctx.ob('C10.R5', fn, r, not skipped, 'return %s' % fn.key(fn.nodes[r].get('val', -1))[:30],
+               'with %s set, %s is written on every path to this return: %s' % (after, prev, not skipped))
+    # the value written for a boundary: -1
+    vals = []
+    for nid, d, rhs, op, lhs in fn.assignments():
+        if nid in writes and rhs is not None:
+            r0 = fn.nodes.get(fn.strip(rhs), {})
+            vals += [fn.val(r0['then']), fn.val(r0['else'])] if r0.get('k') == 'ConditionalOperator' else [fn.val(rhs)]
+    ctx.ob('C10.R5', fn, fn.body, -1 in vals, 'boundary marker', 'values written to %s: %s' % (prev, vals), nontrivial=False)
+    if n < 2:
+        raise AnalysisBroken('C10.R5: returns of hasFullByteOffset not found')
+
 def run(ctx):
     r1(ctx)
     r2(ctx)
     import rules.C12 as c12
     c12.r3(ctx, 'C10.R3')
     c12.r5(ctx, 'C10.R4')
+    r5(ctx)
